@@ -172,7 +172,7 @@ Definition nstep (nd : node) (c : ncmd) : reply * node :=
   | NScript c => node_exec c nd
   | NTick dt => (RNil, mkNode (n_kv nd) (n_now nd + dt) (n_trim nd))
   | NTrim k => (RNil, mkNode (n_kv nd) (n_now nd) k)
-  | NWipe => (RNil, mkNode [] (n_now nd) (n_trim nd))
+  | NWipe => (RNil, mkNode kv_empty (n_now nd) (n_trim nd))
   end.
 
 Fixpoint nrun (nd : node) (cs : list ncmd) : list (reply * node) :=
